@@ -5200,7 +5200,8 @@ func readOfficialHeader(buf []byte) (size uint32, containerTyper func(index uint
 		pos += 4
 	} else if cookie&0x0000FFFF == serialCookie {
 		haveRuns = true
-		size = uint32(uint16(cookie>>16) + 1) // number of containers
+		// number of containers: 1..65536, so the +1 must not be done in uint16
+		size = uint32(uint16(cookie>>16)) + 1
 
 		// create is-run-container bitmap
 		isRunBitmapSize := (int(size) + 7) / 8
